@@ -5,7 +5,7 @@ from bisect import bisect
 from ast import Name as AstName, Attribute, Call, FunctionDef, ClassDef, Lambda
 
 from .util import (Location, np, insert_loc, cached_property,
-                   get_indexes_for_target, context_property)
+                   get_indexes_for_target, context_property, marked)
 from .compat import PY2, itervalues, builtins, iteritems, iterkeys
 from .name import (ArgumentName, MultiName, UndefinedName, ImportedName,
                    RuntimeName, AdditionalNameWrapper, AssignedName,
@@ -249,6 +249,9 @@ class SourceScope(Scope):
 
     def add_attr_assign(self, scope, attr, value):
         # type: (Scope, Attribute, AST) -> None
+        if marked(attr.attr):
+            # the cursor is inside this attribute name: it is being typed, not an attribute yet
+            return
         self._attr_assigns.append((scope, attr, value))
 
     def add_global(self, name):
